@@ -66,7 +66,7 @@ def main():
             checks = sorted([pid for pid in ENC if (pkgof(rel), m["func"]) in ENC[pid]], key=lambda p: COST[p])
             home = [p for p in HOME.get((pkgof(rel), m["func"]), []) if p in checks]
             if not home:
-                home = [p for p in FILEHOME.get(rel, []) if p in checks]
+                home = [p for p in FILEHOME.get(rel, ["C19"] if rel.startswith("cmd/cdi/cmd/") else []) if p in checks]
             checks = home if home else [p for p in checks if COST[p] <= MAXCOST][:MAXCHECKS]
             r = {"func": m["func"], "line": m["line"], "kind": m["kind"], "orig": m["orig"][:80], "repl": m["repl"][:80], "checks": {}, "caught_by": None}
             shutil.copy("/tmp/mut/%s/%s.go" % (key, mid), dst)
